@@ -176,7 +176,20 @@ def run_case(ctx, kind_, idx):
     info = R.brief(strat, x, y, n, kw, meta)
     try:
         with fp_watch(ctx):
-            xs, ys = R.run(strat, x, y, n, kw)
+            if rng.integers(0, 4) == 0:
+                # the caller post-processes a first result in place and asks the same object again: what comes back
+                # must be a recreation of the averages, not the caller's modified numbers
+                obj = R.cls(strat)(x, y, n, **kw)
+                xs0, ys0 = obj.rfa()
+                if isinstance(ys0, np.ndarray) and isinstance(xs0, np.ndarray):
+                    ys0 *= -3.0
+                    ys0 += 17.0
+                    xs0 += 1.0
+                xs, ys = obj.rfa()
+                info["second_call_on_same_object"] = True
+                ctx.count("second_call_on_same_object")
+            else:
+                xs, ys = R.run(strat, x, y, n, kw)
     except Exception as e:
         ctx.judged()
         ctx.exception("raised_on_admissible_input", cid, e, {"case": info})
